@@ -566,27 +566,25 @@ theorem sumSimplify_leaf_disjoint {pop : Option Var} {L rs : List Var} (hn : (L.
 
 theorem sortVars_nil : sortVars lvl [] = .ok [] := rfl
 
-theorem isCanon_sumSimplify (hm : NameMonotone lvl) {S : List Name} {x : Expr} {rs : List Var} (hx : IsCanon lvl x)
-    (hwx : Expr.wss S x = true) (hrs : upgradeOrdering rs = rs) (hne : rs ≠ []) (hxz : x.isZero = false) :
+theorem isCanon_sumSimplify (hm : NameMonotone lvl) {x : Expr} {rs : List Var} (hx : IsCanon lvl x)
+    (hrs : upgradeOrdering rs = rs) (hne : rs ≠ []) (hxz : x.isZero = false) :
     IsCanon lvl (sumSimplify x rs) := by
   by_cases hleafx : ∃ pop c, x = .prob pop c []
   · obtain ⟨pop, c, rfl⟩ := hleafx
-    have hleaf : LeafOKP S c [] := leafOK_iff.mp (by simpa [Expr.wss] using hwx)
-    have hn : (c.map (·.name)).Nodup := by simpa using hleaf.names
-    have hcn : c.Nodup := nodup_of_nodup_map_name hn
     have hcov : ∀ v ∈ c, (lvl v.name).isSome = true := by
       unfold IsCanon at hx; exact sortVars_covered hx.1
-    -- every sub-leaf that Sum.simplify builds is canonical
-    have hsub : ∀ (p : Var → Bool), IsCanon lvl (.prob pop (upgradeOrdering (c.filter p)) []) := by
-      intro p
+    -- every sub-leaf that Sum.simplify builds from the children dict is canonical
+    have hsub : ∀ (ks : List Var),
+        IsCanon lvl (.prob pop (upgradeOrdering ((inter' (dedup' (c.map Var.base)) ks).filterMap (lastWithBase c))) []) := by
+      intro ks
       unfold IsCanon
       refine ⟨?_, sortVars_nil⟩
-      have hperm := upgradeOrdering_perm_of_nodup (hcn.filter p)
+      have hnn := dictVals_names_nodup c ks
+      have hperm := upgradeOrdering_perm_of_nodup (nodup_of_nodup_map_name hnn)
       apply sortVars_of_sorted hm
-      · intro v hv; exact hcov v (List.mem_filter.mp (hperm.subset hv)).1
-      · exact ((hperm.map _).nodup_iff).mpr (hn.sublist (List.filter_sublist.map _))
+      · intro v hv; exact hcov v (dictVals_mem (hperm.subset hv))
+      · exact ((hperm.map _).nodup_iff).mpr hnn
       · exact pairwise_upgradeOrdering _
-    have hvals := dictVals_eq_filter hn
     unfold sumSimplify
     simp only
     split
@@ -595,29 +593,27 @@ theorem isCanon_sumSimplify (hm : NameMonotone lvl) {S : List Name} {x : Expr} {
       · exact isCanon_sumSafe0_one _
       · rename_i hnk
         split
-        · rw [hvals]; exact hsub _
-        · rw [hvals]
-          -- Sum.safe(P(kept children), rs - intersection)
+        · exact hsub _
+        · -- Sum.safe(P(kept children), rs - intersection)
           set keys := dedup' (c.map Var.base) with hkeys
-          set L := upgradeOrdering (c.filter fun v => memb v.base (diff' keys (inter' rs keys))) with hLdef
-          have hLperm := upgradeOrdering_perm_of_nodup (hcn.filter fun v => memb v.base (diff' keys (inter' rs keys)))
-          have hLn : (L.map (·.name)).Nodup := ((hLperm.map _).nodup_iff).mpr (hn.sublist (List.filter_sublist.map _))
-          have hkeq : keys = c.map Var.base := dedup'_of_nodup (nodup_map_base hn)
-          have hLne : L ≠ [] := by
+          set V := (inter' keys (diff' keys (inter' rs keys))).filterMap (lastWithBase c) with hV
+          have hVn : (V.map (·.name)).Nodup := dictVals_names_nodup c _
+          have hVb : V.map Var.base = inter' keys (diff' keys (inter' rs keys)) := dictVals_map_base c _
+          have hLperm := upgradeOrdering_perm_of_nodup (nodup_of_nodup_map_name hVn)
+          have hLn : ((upgradeOrdering V).map (·.name)).Nodup := ((hLperm.map _).nodup_iff).mpr hVn
+          have hLne : upgradeOrdering V ≠ [] := by
             intro h0
             apply hnk
             apply subset'_iff.mpr
             intro k hk
-            rw [hkeq] at hk
-            obtain ⟨v, hv, rfl⟩ := List.mem_map.mp hk
             by_contra hnot
-            have : v ∈ c.filter (fun v => memb v.base (diff' keys (inter' rs keys))) := by
-              rw [List.mem_filter]
-              refine ⟨hv, ?_⟩
-              simp only [memb_iff, mem_diff', mem_inter', hkeq]
-              exact ⟨List.mem_map_of_mem hv, fun h => hnot h.1⟩
-            have hvL : v ∈ L := hLperm.symm.subset this
-            rw [h0] at hvL; cases hvL
+            have hk2 : k ∈ inter' keys (diff' keys (inter' rs keys)) := by
+              rw [mem_inter', mem_diff', mem_inter']
+              exact ⟨hk, hk, fun h => hnot h.1⟩
+            rw [← hVb] at hk2
+            obtain ⟨v, hv, _⟩ := List.mem_map.mp hk2
+            have := hLperm.symm.subset hv
+            rw [h0] at this; cases this
           unfold sumSafe0
           simp only
           split
@@ -629,18 +625,19 @@ theorem isCanon_sumSimplify (hm : NameMonotone lvl) {S : List Name} {x : Expr} {
             refine ⟨hsub _, hne4', upgradeOrdering_idem _, rfl, ?_⟩
             apply sumSimplify_leaf_disjoint hLn (upgradeOrdering_idem _) hLne (upgradeOrdering_idem _) hne4'
             intro v hv hb
-            have hvc := List.mem_filter.mp (hLperm.subset hv)
+            have hvV : v ∈ V := hLperm.subset hv
+            have hvb : v.base ∈ inter' keys (diff' keys (inter' rs keys)) := by
+              rw [← hVb]; exact List.mem_map_of_mem hvV
+            rw [mem_inter', mem_diff'] at hvb
             have hb' := mem_diff'.mp (mem_upgradeOrdering.mp hb)
-            apply hb'.2
-            rw [mem_inter', hkeq]
-            exact ⟨hb'.1, List.mem_map_of_mem hvc.1⟩
+            exact hvb.2.2 (mem_inter'.mpr ⟨hb'.1, hvb.1⟩)
   · have hnl : ∀ pop c, x ≠ .prob pop c [] := fun pop c h => hleafx ⟨pop, c, h⟩
     rw [sumSimplify_nonleaf hnl]
     unfold IsCanon
     exact ⟨hx, hne, hrs, hxz, sumSimplify_nonleaf hnl⟩
 
-theorem isCanon_sumSafe (hm : NameMonotone lvl) {S : List Name} {x : Expr} {r : List Var} (hx : IsCanon lvl x)
-    (hwx : Expr.wss S x = true) : IsCanon lvl (sumSafe x r true) := by
+theorem isCanon_sumSafe (hm : NameMonotone lvl) {x : Expr} {r : List Var} (hx : IsCanon lvl x) :
+    IsCanon lvl (sumSafe x r true) := by
   unfold sumSafe
   simp only
   split
@@ -649,12 +646,12 @@ theorem isCanon_sumSafe (hm : NameMonotone lvl) {S : List Name} {x : Expr} {r : 
     have hne' : upgradeOrdering r ≠ [] := by intro h; rw [h] at hne; simp at hne
     cases x with
     | zero => simp [IsCanon]
-    | prob pop c p => exact isCanon_sumSimplify hm hx hwx (upgradeOrdering_idem r) hne' rfl
-    | prod fs => exact isCanon_sumSimplify hm hx hwx (upgradeOrdering_idem r) hne' rfl
-    | sum e r0 => exact isCanon_sumSimplify hm hx hwx (upgradeOrdering_idem r) hne' rfl
-    | frac n d => exact isCanon_sumSimplify hm hx hwx (upgradeOrdering_idem r) hne' rfl
-    | one => exact isCanon_sumSimplify hm hx hwx (upgradeOrdering_idem r) hne' rfl
-    | q d c => exact isCanon_sumSimplify hm hx hwx (upgradeOrdering_idem r) hne' rfl
+    | prob pop c p => exact isCanon_sumSimplify hm hx (upgradeOrdering_idem r) hne' rfl
+    | prod fs => exact isCanon_sumSimplify hm hx (upgradeOrdering_idem r) hne' rfl
+    | sum e r0 => exact isCanon_sumSimplify hm hx (upgradeOrdering_idem r) hne' rfl
+    | frac n d => exact isCanon_sumSimplify hm hx (upgradeOrdering_idem r) hne' rfl
+    | one => exact isCanon_sumSimplify hm hx (upgradeOrdering_idem r) hne' rfl
+    | q d c => exact isCanon_sumSimplify hm hx (upgradeOrdering_idem r) hne' rfl
 
 /-! ### (A) the canonicaliser produces canonical forms -/
 
@@ -682,34 +679,31 @@ theorem isCanon_flatten {xs : List Expr} (h : ∀ x ∈ xs, IsCanon lvl x) :
     · exact ih (fun x hx => h x (List.mem_cons_of_mem _ hx)) y hy
 
 mutual
-/-- **(A)** -/
-theorem isCanon_canonL (hm : NameMonotone lvl) {S : List Name} : ∀ (e a : Expr), Expr.wss S e = true →
-    canonL lvl e = .ok a → IsCanon lvl a
-  | .prob pop c p, a, hw, h => by
+/-- **(A)** every result of the canonicaliser is canonical — all expressions, no scoping hypothesis -/
+theorem isCanon_canonL (hm : NameMonotone lvl) : ∀ (e a : Expr), canonL lvl e = .ok a → IsCanon lvl a
+  | .prob pop c p, a, h => by
     unfold canonL at h
     obtain ⟨c', hc, h⟩ := bind_ok h
     obtain ⟨p', hp, h⟩ := bind_ok h
     cases h
     unfold IsCanon
     exact ⟨sortVars_perm_eq (sortVars_perm hc).symm hc, sortVars_perm_eq (sortVars_perm hp).symm hp⟩
-  | .sum e r, a, hw, h => by
+  | .sum e r, a, h => by
     unfold canonL at h
     obtain ⟨x, hx, h⟩ := bind_ok h
     cases h
-    obtain ⟨_, hwe⟩ := wss_sum_iff.mp hw
-    exact isCanon_sumSafe hm (isCanon_canonL hm e x hwe hx) (wss_canonL e x hwe hx)
-  | .prod fs, a, hw, h => by
+    exact isCanon_sumSafe hm (isCanon_canonL hm e x hx)
+  | .prod fs, a, h => by
     unfold canonL at h
     obtain ⟨xs, hxs, h⟩ := bind_ok h
     cases h
-    exact (isCanon_productSafe (isCanon_flatten (isCanon_canonFactors hm fs xs (wss_prod_iff.mp hw) hxs))).1
-  | .frac n d, a, hw, h => by
+    exact (isCanon_productSafe (isCanon_flatten (isCanon_canonFactors hm fs xs hxs))).1
+  | .frac n d, a, h => by
     unfold canonL at h
     obtain ⟨n', hn, h⟩ := bind_ok h
     obtain ⟨d', hd, h⟩ := bind_ok h
-    obtain ⟨hwn, hwd⟩ := wss_frac_iff.mp hw
-    have hn' := isCanon_canonL hm n n' hwn hn
-    have hd' := isCanon_canonL hm d d' hwd hd
+    have hn' := isCanon_canonL hm n n' hn
+    have hd' := isCanon_canonL hm d d' hd
     split at h
     · cases h; exact hn'
     · rename_i hone
@@ -718,75 +712,75 @@ theorem isCanon_canonL (hm : NameMonotone lvl) {S : List Name} : ∀ (e a : Expr
       · obtain ⟨rv, hrv, h⟩ := bind_ok h
         cases h
         exact isCanon_div_post hn' hd' (by simpa using hone) hrv
-  | .one, a, _, h => by unfold canonL at h; cases h; simp [IsCanon]
-  | .zero, a, _, h => by unfold canonL at h; cases h; simp [IsCanon]
-  | .q _ _, a, hw, _ => by simp [Expr.wss] at hw
-theorem isCanon_canonFactors (hm : NameMonotone lvl) {S : List Name} : ∀ (fs xs : List Expr),
-    (∀ e ∈ fs, Expr.wss S e = true) → canonFactors lvl fs = .ok xs → ∀ x ∈ xs, IsCanon lvl x
-  | [], xs, _, h => by unfold canonFactors at h; cases h; intro x hx; cases hx
-  | .prod gs :: rest, xs, hw, h => by
+  | .one, a, h => by unfold canonL at h; cases h; simp [IsCanon]
+  | .zero, a, h => by unfold canonL at h; cases h; simp [IsCanon]
+  | .q _ _, a, h => by unfold canonL at h; cases h
+theorem isCanon_canonFactors (hm : NameMonotone lvl) : ∀ (fs xs : List Expr),
+    canonFactors lvl fs = .ok xs → ∀ x ∈ xs, IsCanon lvl x
+  | [], xs, h => by unfold canonFactors at h; cases h; intro x hx; cases hx
+  | .prod gs :: rest, xs, h => by
     unfold canonFactors at h
     obtain ⟨a, ha, h⟩ := bind_ok h
     obtain ⟨b, hb, h⟩ := bind_ok h
     cases h
     intro x hx
     rcases List.mem_append.mp hx with hx | hx
-    · exact isCanon_canonFactors hm gs a (wss_prod_iff.mp (hw _ List.mem_cons_self)) ha x hx
-    · exact isCanon_canonFactors hm rest b (fun y hy => hw y (List.mem_cons_of_mem _ hy)) hb x hx
-  | .prob pop c p :: rest, xs, hw, h => by
+    · exact isCanon_canonFactors hm gs a ha x hx
+    · exact isCanon_canonFactors hm rest b hb x hx
+  | .prob pop c p :: rest, xs, h => by
     unfold canonFactors at h
     obtain ⟨a, ha, h⟩ := bind_ok h
     obtain ⟨b, hb, h⟩ := bind_ok h
     cases h
     intro x hx
     rcases List.mem_cons.mp hx with rfl | hx
-    · exact isCanon_canonL hm _ _ (hw _ List.mem_cons_self) ha
-    · exact isCanon_canonFactors hm rest b (fun y hy => hw y (List.mem_cons_of_mem _ hy)) hb x hx
-  | .sum e0 r :: rest, xs, hw, h => by
+    · exact isCanon_canonL hm _ _ ha
+    · exact isCanon_canonFactors hm rest b hb x hx
+  | .sum e0 r :: rest, xs, h => by
     unfold canonFactors at h
     obtain ⟨a, ha, h⟩ := bind_ok h
     obtain ⟨b, hb, h⟩ := bind_ok h
     cases h
     intro x hx
     rcases List.mem_cons.mp hx with rfl | hx
-    · exact isCanon_canonL hm _ _ (hw _ List.mem_cons_self) ha
-    · exact isCanon_canonFactors hm rest b (fun y hy => hw y (List.mem_cons_of_mem _ hy)) hb x hx
-  | .frac n d :: rest, xs, hw, h => by
+    · exact isCanon_canonL hm _ _ ha
+    · exact isCanon_canonFactors hm rest b hb x hx
+  | .frac n d :: rest, xs, h => by
     unfold canonFactors at h
     obtain ⟨a, ha, h⟩ := bind_ok h
     obtain ⟨b, hb, h⟩ := bind_ok h
     cases h
     intro x hx
     rcases List.mem_cons.mp hx with rfl | hx
-    · exact isCanon_canonL hm _ _ (hw _ List.mem_cons_self) ha
-    · exact isCanon_canonFactors hm rest b (fun y hy => hw y (List.mem_cons_of_mem _ hy)) hb x hx
-  | .one :: rest, xs, hw, h => by
+    · exact isCanon_canonL hm _ _ ha
+    · exact isCanon_canonFactors hm rest b hb x hx
+  | .one :: rest, xs, h => by
     unfold canonFactors at h
     obtain ⟨a, ha, h⟩ := bind_ok h
     obtain ⟨b, hb, h⟩ := bind_ok h
     cases h
     intro x hx
     rcases List.mem_cons.mp hx with rfl | hx
-    · exact isCanon_canonL hm _ _ (hw _ List.mem_cons_self) ha
-    · exact isCanon_canonFactors hm rest b (fun y hy => hw y (List.mem_cons_of_mem _ hy)) hb x hx
-  | .zero :: rest, xs, hw, h => by
+    · exact isCanon_canonL hm _ _ ha
+    · exact isCanon_canonFactors hm rest b hb x hx
+  | .zero :: rest, xs, h => by
     unfold canonFactors at h
     obtain ⟨a, ha, h⟩ := bind_ok h
     obtain ⟨b, hb, h⟩ := bind_ok h
     cases h
     intro x hx
     rcases List.mem_cons.mp hx with rfl | hx
-    · exact isCanon_canonL hm _ _ (hw _ List.mem_cons_self) ha
-    · exact isCanon_canonFactors hm rest b (fun y hy => hw y (List.mem_cons_of_mem _ hy)) hb x hx
-  | .q dd cc :: rest, xs, hw, _ => by
-    have := hw _ List.mem_cons_self
-    simp [Expr.wss] at this
+    · exact isCanon_canonL hm _ _ ha
+    · exact isCanon_canonFactors hm rest b hb x hx
+  | .q dd cc :: rest, xs, h => by
+    unfold canonFactors at h
+    obtain ⟨a, ha, _⟩ := bind_ok h
+    unfold canonL at ha; cases ha
 end
 
-/-- **idempotence** for well-scoped expressions and orderings that are monotone in the variable name -/
-theorem canonL_idem (hm : NameMonotone lvl) {S : List Name} {e a : Expr} (hw : Expr.wss S e = true)
-    (h : canonL lvl e = .ok a) : canonL lvl a = .ok a :=
-  canonL_of_isCanon a (isCanon_canonL hm e a hw h)
+/-- **idempotence**: for ALL expressions, under every ordering that is monotone in the variable name -/
+theorem canonL_idem (hm : NameMonotone lvl) {e a : Expr} (h : canonL lvl e = .ok a) : canonL lvl a = .ok a :=
+  canonL_of_isCanon a (isCanon_canonL hm e a h)
 
 end Y0
 
